@@ -213,8 +213,8 @@ Definition model_agrees (c : case) : bool :=
   match c with
   | CScript sc ob _ =>
       let d := drive Fixed sc in
-      if d_bad d then false
-      else if d_amb d then true
+      if d_amb d then true          (* an order the runtime does not fix was met: oracle only *)
+      else if d_bad d then false
       else obs_eqb (d_obs d) ob
   | CConc n calls stay leaver late w =>
       eqb_llz (conc_model Fixed (Z.to_nat n) w leaver late) (conc_observed stay leaver late)
